@@ -11,3 +11,7 @@ def key_lower(s):
             c.isalnum() or c in "-._" for c in s) or not s.isascii():
         raise ValueError("bad key %r" % (s,))
     return s.lower()
+
+
+def conv(s):
+    return "c2:" + s
